@@ -184,6 +184,10 @@ func ProfileFor(focus, arm string) Profile {
 			p.LateReply = 0.15
 			p.SpanUs = 9_000_000
 			p.Cache = "off"
+			// answers at the 64 KiB boundary: what does not fit a frame must not
+			// spill into the next one
+			p.HugeAnswers = 0.3
+			p.Shapes = []string{"plain", "mixed", "binary", "tight"}
 		}
 	case "C09":
 		p.HugeAnswers = 0.05
@@ -1407,6 +1411,26 @@ func specialize(r *rng, p *plan.Plan, focus, arm string) {
 			}
 		}
 		rp.HorizonUs = last + 10_000_000 + 8_000_000 + 12_000_000
+	case "C09":
+		if arm == "clean" && r.p(0.1) {
+			// a global limit that almost every query runs into: the refusal the
+			// listener makes up echoes the query's questions and has to respect
+			// the size limit like any other response (several questions under a
+			// name of 250 octets do not fit 512)
+			rp.Limiter.Global = r.rng(1, 3)
+			for i := range rp.Ops {
+				o := &rp.Ops[i]
+				if o.Raw != nil || rp.Servers[rp.Conns[o.Conn].Server].Proto != "udp" || !r.p(0.6) {
+					continue
+				}
+				o.NQ = r.rng(3, 6)
+				o.DistinctQ = true
+				o.Labels = fillName(r, o.Labels)
+				if o.EDNS != nil && r.p(0.5) {
+					o.EDNS.UDPSize = []uint16{512, 600, 1232}[r.intn(3)]
+				}
+			}
+		}
 	case "C13", "C12":
 		if arm == "overload" {
 			// one burst per connection, upstream holds every reply for 2 s
@@ -1580,6 +1604,11 @@ func genCacheOps(r *rng, p *plan.Plan, focus, arm string) {
 		default:
 			life = int64([]int{5, 10, 30, 60, 600}[r.intn(5)])
 			a.TTLs = []uint32{uint32(life), uint32(life * 2)}
+		}
+		if focus == "C19" && a.Rcode == 0 && r.p(0.12) {
+			// NODATA: no answer records, an authority record (which carries the
+			// metadata); as much an entry to be refreshed as any other
+			a.NAn, a.NNs = 0, r.rng(1, 2)
 		}
 		delay := func() int64 { return r.i64(200, 40_000) }
 		t.Acts = []plan.UpAction{{Kind: "reply", DelayUs: delay()}}
@@ -2043,7 +2072,12 @@ func genC15(r *rng, p *plan.Plan) {
 		rp.Limiter.V6Mask = []int{48, 56, 64}[r.intn(3)]
 	}
 	for i := range rp.Servers {
+		// behind a reverse proxy: the client is who the header says, and its
+		// subnet - not the proxy's - is what the query is charged to
 		rp.Servers[i].ClientAddrHeader = ""
+		if pr := rp.Servers[i].Proto; (pr == "http" || pr == "https") && r.p(0.5) {
+			rp.Servers[i].ClientAddrHeader = "X-Forwarded-For"
+		}
 		rp.Servers[i].MTLS = false
 	}
 	rp.Conns, rp.Ops = nil, nil
@@ -2071,6 +2105,16 @@ func genC15(r *rng, p *plan.Plan) {
 		} else {
 			lastAt[key] = at
 			rp.Conns = append(rp.Conns, plan.ClientConn{Idx: ci, Server: si, Src: src, LingerUs: 8_000_000, HTTP2: srv.Proto == "https" && r.p(0.5)})
+			if srv.ClientAddrHeader != "" {
+				// every client of this listener comes through the same reverse proxy
+				c := &rp.Conns[len(rp.Conns)-1]
+				c.XFF = src
+				if strings.Contains(src, ":") {
+					c.Src = "2001:db8:9::1"
+				} else {
+					c.Src = "10.77.0.1"
+				}
+			}
 			if srv.MultiRoutes && strings.Contains(src, ".") && r.p(0.5) {
 				// a second local address of the socket: the answer - a refusal
 				// too - has to come back from there
